@@ -279,6 +279,9 @@ theorem getUserCommand_spec (w : World) (hs : Safe w) :
         simp at he
         rw [← he.1]; exact s4 u t rfl
 
+theorem endInput_turn (us : U) : (endInput us).turn = us.turn := by
+  unfold endInput; split <;> rfl
+
 theorem processUserCommand_spec (sc : Scripts) (w : World) (hs : Safe w) :
     Safe (processUserCommand sc w).1 ∧ (processUserCommand sc w).1.slots.length = w.slots.length ∧
       ((processUserCommand sc w).2.2 = false →
@@ -303,15 +306,15 @@ theorem processUserCommand_spec (sc : Scripts) (w : World) (hs : Safe w) :
       dsimp only at g1 g2 g3 g4 ⊢
       -- the input_to bookkeeping
       have hf2 : Frame w1 (if (w1.users.get u).inputTo then
-          { w1 with users := upd w1.users u { w1.users.get u with inputTo := false, single := false } } else w1) := by
+          { w1 with users := upd w1.users u (endInput (w1.users.get u)) } else w1) := by
         split
         · refine ⟨rfl, rfl, rfl, ?_⟩
           intro x; simp only [turnOf, get_upd]; split
-          · rename_i hx; subst hx; rfl
+          · rename_i hx; subst hx; exact endInput_turn _
           · rfl
         · exact Frame.refl w1
       obtain ⟨r1, r2⟩ := runOps_frame sc scriptFuel (if (w1.users.get u).inputTo then
-          { w1 with users := upd w1.users u { w1.users.get u with inputTo := false, single := false } } else w1) u (sc u t)
+          { w1 with users := upd w1.users u (endInput (w1.users.get u)) } else w1) u (sc u t)
       have hF := hf2.trans r1
       refine ⟨hF.safe g1, by rw [hF.1, g2], by simp, ?_⟩
       intro _
